@@ -14,7 +14,7 @@ PROPERTY = "C19"
 LEVEL = "exploration"
 RULE = (
     "four base files (2.0 with ~V ~W ~P ~X ~C ~A; one with duplicated mnemonics; one version 1.2; one made of terse lines without description or without period); junk = every string "
-    "of length 1..3 (thorough 1..4) over {. : blank a 1 \" - ( # / E _ ,} plus adversarial long lines (500 periods, 500 "
+    "of length 1..3 (thorough 1..4) over {. : blank a 1 \" - ( ) # / E _ ,} plus adversarial long lines (500 periods, 500 "
     "colons, quotes only, 5000 digits, ':.', '.:', '..:', parsable lines carrying 25-40 digit integers, 1e999, hex); inserted at every line boundary inside ~V, ~W, ~P and the "
     "custom section, one line at a time, and all pairs (two junk lines at two sites) over the short strings and over eight parsable lines ('%' in the name, blank and literal UNKNOWN names, a 5000-character name, the name of a genuine item), the same line twice included; each text "
     "is read with and without ignore_header_errors; non-trivial = junk that is neither blank nor a '#' comment"
@@ -25,14 +25,17 @@ ASSUMPTIONS = [
     "~C is not a junk site (any parsable line there legitimately declares a curve)",
 ]
 
-ALPHA = [".", ":", " ", "a", "1", '"', "-", "(", "#", "/", "E", "_", ","]
+ALPHA = [".", ":", " ", "a", "1", '"', "-", "(", ")", "#", "/", "E", "_", ","]
 LONG = ["." * 500, ":" * 500, '"' * 40, "'" * 40, "1" * 5000, ":.", ".:", "..:", ". .", ": :", "a" * 300 + ".", "." + "a" * 300,
         "a.b.c.d:e:f:g", "\t", "\t.\t:\t", "((((", "[[]]", "a b c d e f g h", "1.2.3.4:5:6", "%s %d {0}", "\\", "\\.\\:",
         # parsable lines whose value is far outside every machine number range
         "a. " + "9" * 25 + " : d", "X. 123456789012345678901234567890", "Q.U -" + "9" * 40 + " : big", "a. 1e999 : d", "a. -1E+4000 :",
         "9" * 30 + ". 1 : digits as name", "a." + "9" * 30 + " 5 : digits as unit", "a : " + "9" * 25, "a. 0x" + "F" * 20 + " : hex",
         "@.# $ : %", "junk.unit value : descr", ".u : d", "REC%. 100 : core recovery", "a%d. 1 : x", "%. 5 : p", "%(x)s.%s 1 : %%",
-        "{0}.{1} {2} : {}", "A. 1 : same name as a genuine item"]
+        "{0}.{1} {2} : {}", "A. 1 : same name as a genuine item",
+        # a colon and a period, the period only after the colon; units made of brackets only
+        "?? no idea : n.a. ??", "what : n.a.", "x : 1.5", "no.idea : a.b : c", "!!.[] ;; : --", ".()", "REMARK.[()] n/a : see below",
+        "a.[] : b", "a.() 1 : c", "a.[[]] : d", "a.)( 1 : e", "a.( : f"]
 # parsable junk inserted twice (same line at two sites, and every ordered pair): duplicates take another path than single items
 PAIR_EXTRA = ["REC%. 100 : core recovery", "a%d. 1 : x", "%. 5 : p", "junk.unit value : descr", "A. 1 : same name as a genuine item",
               ". 3 : blank name", "UNKNOWN. 4 : literal unknown", "X" * 5000 + ". 1 : very long name"]
@@ -71,16 +74,21 @@ def sites_of(text):
     return lines, out
 
 
-def junk_strings(maxlen):
+CORE_ALPHA = [".", ":", " ", "a", "1", '"', "(", ")", "-"]
+
+
+def junk_strings(maxlen, full_upto=None):
+    """Strings of length 1..maxlen; lengths above `full_upto` are built from the structural sub-alphabet only."""
     out = []
     for k in range(1, maxlen + 1):
-        for t in itertools.product(ALPHA, repeat=k):
+        alpha = ALPHA if (full_upto is None or k <= full_upto) else CORE_ALPHA
+        for t in itertools.product(alpha, repeat=k):
             out.append("".join(t))
     return out
 
 
 def bounds(tier):
-    return {"bases": len(BASES), "alphabet": ALPHA, "max_len": 3 if tier == "quick" else 4, "long_lines": len(LONG),
+    return {"bases": len(BASES), "alphabet": ALPHA, "max_len": "3 (length 3 over the 9 structural symbols)" if tier == "quick" else "4 (length 4 over the 9 structural symbols)", "long_lines": len(LONG),
             "sites_per_base": [len(sites_of(b)[1]) for b in BASES], "pairs": "length<=1 x all site pairs" if tier == "quick" else "length<=1 plus 36 structural length-2 strings x all site pairs"}
 
 
@@ -91,6 +99,8 @@ def points(tier):
         _, sites = sites_of(b)
         for si in range(len(sites)):
             pts.append(["single", bi, si, maxlen])
+        if tier == "quick" and bi in (1, 2):
+            continue  # quick: pairs on the plain and on the terse base file only
         for si in range(len(sites)):
             for sj in range(si, len(sites)):
                 pts.append(["pair", bi, si, sj, 1 if tier == "quick" else 2])
@@ -122,9 +132,9 @@ def is_subsequence(want, got):
     return all(any(w == g for g in it) for w in want)
 
 
-def judge(bi, text, junk_lines):
+def judge(bi, text, junk_lines, ref=None):
     """Returns list of (clause, expected, observed)."""
-    ref_items, ref_data = reference(bi)
+    ref_items, ref_data = ref if ref is not None else reference(bi)
     bad = []
     try:
         las = lasio.read(text, ignore_header_errors=True)
@@ -174,7 +184,70 @@ def insert(lines, pairs):
     return "\n".join(out) + "\n"
 
 
+_REFDATA = {}
+
+
+def _ref_isolated(bi):
+    """The reference read of the clean base file runs in a forked child: the process that judges junk texts must
+    not have parsed the clean file before (state remembered from it could mask what the junk line does)."""
+    from ..core import isolate
+    if bi not in _REFDATA:
+        _REFDATA[bi] = isolate.call(reference, bi)
+    return _REFDATA[bi]
+
+
+def _judge_cases(bi, lines, cases, ref, pt, first_index):
+    out = []
+    evals = 0
+    nontriv = 0
+    for k, pairs in enumerate(cases):
+        junk = [j for _, j in pairs]
+        text = insert(lines, pairs)
+        bad, n = judge(bi, text, junk, ref)
+        evals += n
+        if any(j.strip() and not j.strip().startswith("#") for j in junk):
+            nontriv += 1
+        for clause, exp, obs in bad:
+            out.append({"clause": clause, "sig": "base%d:%s" % (bi, pt[0]),
+                        "witness": {"point": pt, "case": first_index + k, "junk": junk, "text": text if len(text) < 3000 else text[:3000] + "..."},
+                        "expected": exp, "observed": obs, "size": sum(len(j) for j in junk) + 100 * len(junk),
+                        "repro": "import lasio; lasio.read(%r, ignore_header_errors=True)   # in a fresh interpreter" % (text if len(text) < 2000 else "<long>")})
+    return out, evals, nontriv
+
+
 def check_point(pt, only=None):
+    from ..core import isolate
+    kind, bi = pt[0], pt[1]
+    lines, sites = sites_of(BASES[bi])
+    ref = _ref_isolated(bi)
+    if kind == "single":
+        short = [[(sites[pt[2]], j)] for j in junk_strings(pt[3], 2 if pt[3] == 3 else 3)]
+        longc = [[(sites[pt[2]], j)] for j in LONG]
+    else:
+        js = junk_strings(1)
+        if pt[4] >= 2:
+            js = js + [a + b for a in ".: a1\"" for b in ".: a1\""]
+        short = [[(sites[pt[2]], a), (sites[pt[3]], b)] for a in js for b in js]
+        longc = [[(sites[pt[2]], a), (sites[pt[3]], b)] for a in PAIR_EXTRA for b in PAIR_EXTRA]
+    vio, evals, nontriv = [], 0, 0
+    if only is not None:
+        allc = short + longc
+        v, e, t = isolate.call(_judge_cases, bi, lines, [allc[only]], ref, pt, only)
+        return e1.compress(v), (repr(pt), t), kind, {}, e
+    # the short strings share one fresh process; every structured line gets a fresh process of its own
+    v, e, t = isolate.call(_judge_cases, bi, lines, short, ref, pt, 0)
+    vio += v; evals += e; nontriv += t
+    if kind == "single":
+        for k, case in enumerate(longc):
+            v, e, t = isolate.call(_judge_cases, bi, lines, [case], ref, pt, len(short) + k)
+            vio += v; evals += e; nontriv += t
+    else:
+        v, e, t = isolate.call(_judge_cases, bi, lines, longc, ref, pt, len(short))
+        vio += v; evals += e; nontriv += t
+    return e1.compress(vio), (repr(pt), nontriv), kind, {}, evals
+
+
+def _old_check_point(pt, only=None):
     kind, bi = pt[0], pt[1]
     lines, sites = sites_of(BASES[bi])
     vio = []
